@@ -25,6 +25,13 @@
 //!        the parameters by `update`
 //! mvns <seed> <n> <d> <mean d> <cr> <cc> <cov>  -> as `mvn`, but the rows are n calls of `MVN::sample()`
 //!
+//! c <ctor> <dist> <seed> <n> <params…>    -> as `s` (n draws, state); the object is obtained through the construction route
+//! cq <ctor> <dist> <seed> <n> <K> <params…> -> as `q`, same construction route
+//!        ctor = base[.clone]; base: new = `X::new(params)`; default = `X::default()` (the params of the request are the
+//!        documented default parameters and are NOT used to build the object); reset = `new(params)` then every setter
+//!        with the same value; update = `new(params)` then `update(&params)`; default-setters / default-update =
+//!        `X::default()` brought to the params by the setters / by `update`; `.clone` samples from a clone of that object
+//!
 //! dist / params: normal mu sigma | gamma a b | beta a b | chi2 k | t dof | poisson lam | binomial n p |
 //!   exp lam | gumbel mu beta | pareto alpha xm | uniform a b | du lo hi | bern p
 use compute::distributions::*;
@@ -138,6 +145,91 @@ fn build_default(d: &D) -> Box<dyn Distribution1D> {
         D::Uniform(a, b) => df!(Uniform, [a, b]),
         D::Du(a, b) => df!(DiscreteUniform, [a as f64, b as f64]),
         D::Bern(p) => df!(Bernoulli, [p]),
+    }
+}
+
+fn build_ctor_known(ctor: &str) -> Option<()> {
+    let base = ctor.strip_suffix(".clone").unwrap_or(ctor);
+    if matches!(base, "new" | "default" | "reset" | "update" | "default-setters" | "default-update") {
+        Some(())
+    } else {
+        None
+    }
+}
+
+/// Object obtained through a construction route (see the header).
+fn build_ctor(ctor: &str, d: &D) -> Option<Box<dyn Distribution1D>> {
+    let (base, cl) = match ctor.strip_suffix(".clone") {
+        Some(b) => (b, true),
+        None => (ctor, false),
+    };
+    if !matches!(base, "new" | "default" | "reset" | "update" | "default-setters" | "default-update") {
+        return None;
+    }
+    macro_rules! mk {
+        ($ty:ident, $new:expr, $set:expr, $upd:expr) => {{
+            let mut o: $ty = match base {
+                "new" | "reset" | "update" => $new,
+                _ => $ty::default(),
+            };
+            match base {
+                "reset" | "default-setters" => {
+                    let f: &dyn Fn(&mut $ty) = &$set;
+                    f(&mut o)
+                }
+                "update" | "default-update" => o.update(&$upd),
+                _ => {}
+            }
+            if cl {
+                let c = o.clone();
+                let _ = o;
+                Some(Box::new(c) as Box<dyn Distribution1D>)
+            } else {
+                Some(Box::new(o) as Box<dyn Distribution1D>)
+            }
+        }};
+    }
+    match *d {
+        D::Normal(a, b) => mk!(Normal, Normal::new(a, b), |o: &mut Normal| { o.set_mu(a); o.set_sigma(b); }, [a, b]),
+        D::Gamma(a, b) => mk!(Gamma, Gamma::new(a, b), |o: &mut Gamma| { o.set_alpha(a); o.set_beta(b); }, [a, b]),
+        D::Beta(a, b) => mk!(Beta, Beta::new(a, b), |o: &mut Beta| { o.set_alpha(a); o.set_beta(b); }, [a, b]),
+        D::Chi2(k) => mk!(ChiSquared, ChiSquared::new(k), |o: &mut ChiSquared| { o.set_dof(k); }, [k as f64]),
+        D::T(v) => mk!(T, T::new(v), |o: &mut T| { o.set_dof(v); }, [v]),
+        D::Poisson(l) => mk!(Poisson, Poisson::new(l), |o: &mut Poisson| { o.set_lambda(l); }, [l]),
+        D::Binomial(n, p) => mk!(Binomial, Binomial::new(n, p), |o: &mut Binomial| { o.set_n(n); o.set_p(p); }, [n as f64, p]),
+        D::Exp(l) => mk!(Exponential, Exponential::new(l), |o: &mut Exponential| { o.set_lambda(l); }, [l]),
+        D::Gumbel(a, b) => mk!(Gumbel, Gumbel::new(a, b), |o: &mut Gumbel| { o.set_mu(a); o.set_beta(b); }, [a, b]),
+        D::Pareto(a, b) => mk!(Pareto, Pareto::new(a, b), |o: &mut Pareto| { o.set_alpha(a); o.set_minval(b); }, [a, b]),
+        // the bound setters check against the other current bound (default object: [0, 1]): pick the order that is legal
+        D::Uniform(a, b) => mk!(
+            Uniform,
+            Uniform::new(a, b),
+            |o: &mut Uniform| {
+                if base == "reset" || a <= 1. {
+                    o.set_lower(a);
+                    o.set_upper(b);
+                } else {
+                    o.set_upper(b);
+                    o.set_lower(a);
+                }
+            },
+            [a, b]
+        ),
+        D::Du(a, b) => mk!(
+            DiscreteUniform,
+            DiscreteUniform::new(a, b),
+            |o: &mut DiscreteUniform| {
+                if base == "reset" || a <= 1 {
+                    o.set_lower(a);
+                    o.set_upper(b);
+                } else {
+                    o.set_upper(b);
+                    o.set_lower(a);
+                }
+            },
+            [a as f64, b as f64]
+        ),
+        D::Bern(p) => mk!(Bernoulli, Bernoulli::new(p), |o: &mut Bernoulli| { o.set_p(p); }, [p]),
     }
 }
 
@@ -327,6 +419,28 @@ fn step(_: &mut (), t: &mut Toks) -> R<String> {
                 alea::set_seed(seed);
                 let v = dist.sample_n(n);
                 ok(summary(v.to_vec(), k))
+            }))
+        }
+        "c" | "cq" => {
+            let is_q = op == "cq";
+            let ctor = t.tok()?.to_string();
+            let name = t.tok()?;
+            let (seed, n) = (t.u64()?, t.usize()?);
+            let k = if is_q { t.usize()? } else { 0 };
+            let d = parse_dist(name, t)?;
+            t.end()?;
+            if build_ctor_known(&ctor).is_none() {
+                return Err(BadOp);
+            }
+            Ok(capped(Duration::from_secs(if is_q { 120 } else { 30 }), move || {
+                let dist = build_ctor(&ctor, &d).expect("ctor");
+                alea::set_seed(seed);
+                let v = dist.sample_n(n);
+                if is_q {
+                    ok(summary(v.to_vec(), k))
+                } else {
+                    ok(with_state(show_fs(&v)))
+                }
             }))
         }
         "r" => {
